@@ -60,6 +60,24 @@ theorem load_perm_invariant {rows₁ rows₂ : List Line} (atomsColumns : Nat) (
     readAtoms rows₁ atomsColumns s style u = readAtoms rows₂ atomsColumns s style u :=
   readAtoms_perm atomsColumns s style u hp hid hd hdf
 
+/-- **load_perm_invariant, file level**: two data files laid out like the writer's (header, `Atoms # style`, the atom
+    lines, optional `Velocities`) that differ only in the order of their atom lines — all of one width, as many as the
+    header says, with distinct ids — load identically, text to system. -/
+theorem load_perm_invariant_data_file {f : Fmt} (hf : Readable f) (style : String) (p p' : DataParts) (u : Units)
+    (hwords : (styleWords style).map strTok ≠ [] ∧ ∀ t ∈ (styleWords style).map strTok, CleanTok t)
+    (hsame : p'.natoms = p.natoms ∧ p'.natypes = p.natypes ∧ p'.hilo = p.hilo ∧ p'.vel = p.vel)
+    (hperm : p'.rows.Perm p.rows) (hn : p.natoms = p.rows.length) (m : Nat) (hm : ∀ r ∈ p.rows, r.length = m)
+    (hne : p.rows ≠ []) (hm0 : m ≠ 0) (hv : ∀ vr, p.vel = some vr → ∀ r ∈ vr, r ≠ [])
+    (pbc : V3 Bool) (symbols : Option (List (Option String))) (styleArg : Option String)
+    (hid : ∀ st cols, lookupCols Gen.LoadStyles.atomStyles st u = .ok cols → idIndex cols = some 0)
+    (hd : ∀ st cols t, lookupCols Gen.LoadStyles.atomStyles st u = .ok cols →
+      readTable (rowsDoc f p.rows) (colsWidth cols) true = .ok t → (t.map (rowKey 0)).Nodup)
+    (hdf : ∀ st cols fl, lookupCols Gen.LoadStyles.atomStyles st u = .ok cols →
+      (rowsDoc f p.rows).mapM (readFlagRow (colsWidth cols)) = .ok fl → (fl.map (·.1)).Nodup) :
+    loadData (renderLines (dataDocOf f style p)) pbc symbols styleArg u =
+      loadData (renderLines (dataDocOf f style p')) pbc symbols styleArg u :=
+  data_file_rows_perm hf style p p' u hwords hsame hperm hn m hm hne hm0 hv pbc symbols styleArg hid hd hdf
+
 /-- in every atom_style the loader knows, the atom id is the first column (what the flag reader relies on). -/
 theorem atom_styles_id_first :
     ∀ e ∈ Gen.LoadStyles.atomStyles, (e.2.head?).map (fun c => (c.1, c.2.1)) = some ("a_id", ["id"]) := by
